@@ -18,7 +18,7 @@ pub fn prop() -> Prop {
                (unowned writes must leave it unchanged). Non-trivial = history with at least one add/remove/mmap; distinct = distinct histories.",
         assumptions: &["port-table model written from the property text", "reads use a privileged, effectful context"],
         exhaustive: never, run, guard,
-        level_text: "Model-based runtime monitoring: bounded-exhaustive operation sequences (depth 4 quick / 5 thorough over a reduced alphabet of 25 operations) plus long random histories, each replayed on the real device handler and on a small port-table model with recording devices as probes.",
+        level_text: "Model-based runtime monitoring: bounded-exhaustive operation sequences (depth 4 quick / 5 thorough over a reduced alphabet of 26 operations) plus long random histories, each replayed on the real device handler and on a small port-table model with recording devices as probes.",
         level_note: "Exhaustive only up to the stated depth and alphabet; the model is trusted.",
         technique: "model-based history checking with recording devices (bounded-exhaustive + random)",
         ..Prop::base("C32", "")
@@ -29,13 +29,13 @@ pub fn prop() -> Prop {
 enum Op { Add(u16, Vec<u16>), Remove(u16), SetKbd(Option<u16>), SetDisp(Option<u16>), Mmap(u16, u8), Munmap(u16), Read(u16), Write(u16, u16) }
 
 /// The model: devices by id (tag of the recorder or None for null), port owner table, internal-register map.
-struct Model { devices: Vec<Option<u16>>, owner: BTreeMap<u16, u16>, ireg: BTreeMap<u16, u8>, pc: u16, saved_sp: u16 }
+struct Model { devices: Vec<Option<u16>>, owner: BTreeMap<u16, u16>, ireg: BTreeMap<u16, u8>, pc: u16, saved_sp: u16, mcr: bool }
 impl Model {
     fn new() -> Model {
         let mut owner = BTreeMap::new();
         for p in [0xFE00u16, 0xFE02] { owner.insert(p, 1); }
         for p in [0xFE04u16, 0xFE06] { owner.insert(p, 2); }
-        Model { devices: vec![None, None, None], owner, ireg: BTreeMap::from([(0xFFFC, 9), (0xFFFE, 8)]), pc: 0x3000, saved_sp: 0x3000 }
+        Model { devices: vec![None, None, None], owner, ireg: BTreeMap::from([(0xFFFC, 9), (0xFFFE, 8)]), pc: 0x3000, saved_sp: 0x3000, mcr: false }
     }
     fn owned(&self, p: u16) -> bool { self.owner.get(&p).copied().unwrap_or(0) != 0 }
 }
@@ -72,7 +72,7 @@ fn apply(sys: &mut Sys, m: &mut Model, op: &Op) -> Result<(), (String, String)> 
             let before = sys.sim.mem[*p].get();
             let got = sys.sim.read_mem(*p, priv_ctx()).map(|w| w.get()).ok();
             let log = drain(sys);
-            let (want, want_log): (u16, Vec<(u16, char, u16, u16)>) = if *p < 0xFE00 { (before, vec![]) } else if let Some(r) = m.ireg.get(p) { (match *r { REG_PC => m.pc, REG_SSP => m.saved_sp, 8 => 0, _ => sys.sim.psr().get() }, vec![]) }
+            let (want, want_log): (u16, Vec<(u16, char, u16, u16)>) = if *p < 0xFE00 { (before, vec![]) } else if let Some(r) = m.ireg.get(p) { (match *r { REG_PC => m.pc, REG_SSP => m.saved_sp, 8 => (m.mcr as u16) << 15, _ => sys.sim.psr().get() }, vec![]) }
                 else { let o = m.owner.get(p).copied().unwrap_or(0); match m.devices.get(o as usize).copied().flatten() { Some(tag) if o != 0 => (0x1200 | tag, vec![(tag, 'R', *p, 0)]), _ => (before, vec![]) } };
             if got != Some(want) { return Err(("read-value".into(), format!("read(x{p:04X}) = {got:04X?}, model x{want:04X}"))); }
             if log != want_log { return Err((if want_log.is_empty() { "read-reached-a-device-it-should-not".into() } else { "read-missed-its-device".into() }, format!("read(x{p:04X}): device log {log:?}, model {want_log:?}"))); }
@@ -82,7 +82,7 @@ fn apply(sys: &mut Sys, m: &mut Model, op: &Op) -> Result<(), (String, String)> 
             let before = sys.sim.mem[*p].get();
             let _ = sys.sim.write_mem(*p, Word::new_init(*v), priv_ctx());
             let log = drain(sys);
-            let (want_mem, want_log): (u16, Vec<(u16, char, u16, u16)>) = if *p < 0xFE00 { (*v, vec![]) } else if let Some(r) = m.ireg.get(p).copied() { match r { REG_PC => m.pc = *v, REG_SSP => m.saved_sp = *v, _ => {} } (*v, vec![]) }
+            let (want_mem, want_log): (u16, Vec<(u16, char, u16, u16)>) = if *p < 0xFE00 { (*v, vec![]) } else if let Some(r) = m.ireg.get(p).copied() { match r { REG_PC => m.pc = *v, REG_SSP => m.saved_sp = *v, 8 => m.mcr = *v & 0x8000 != 0, _ => {} } (*v, vec![]) }
                 else { let o = m.owner.get(p).copied().unwrap_or(0); match m.devices.get(o as usize).copied().flatten() { Some(tag) if o != 0 => (*v, vec![(tag, 'W', *p, *v)]), _ => (before, vec![]) } };
             if log != want_log { return Err((if want_log.is_empty() { "write-reached-a-device-it-should-not".into() } else { "write-missed-its-device".into() }, format!("write(x{p:04X}, x{v:04X}): device log {log:?}, model {want_log:?}"))); }
             if sys.sim.mem[*p].get() != want_mem { return Err((if want_log.is_empty() && !m.ireg.contains_key(p) && *p >= 0xFE00 { "unowned-write-changed-memory".into() } else { "write-mirror".into() }, format!("mem[x{p:04X}] = x{:04X} after write of x{v:04X}, model x{want_mem:04X}", sys.sim.mem[*p].get()))); }
@@ -96,7 +96,7 @@ fn new_sys() -> Sys { Sys { sim: Simulator::new(SimFlags { machine_init: Machine
 
 fn alphabet() -> Vec<Op> {
     let mut v = vec![];
-    for (tag, ports) in [(1u16, vec![]), (1, vec![0xFE10u16]), (2, vec![0xFE10, 0xFE11]), (2, vec![0xFE11]), (3, vec![0xFE06]), (3, vec![0xFE10, 0x3000]), (1, vec![0xFFFC]), (3, vec![0xFFF0])] { v.push(Op::Add(tag, ports)); }
+    for (tag, ports) in [(1u16, vec![]), (1, vec![0xFE10u16]), (2, vec![0xFE10, 0xFE11]), (2, vec![0xFE11]), (3, vec![0xFE06]), (3, vec![0xFE10, 0x3000]), (1, vec![0xFFFC]), (3, vec![0xFFF0]), (2, vec![0xFFFF])] { v.push(Op::Add(tag, ports)); }
     for id in 0..6 { v.push(Op::Remove(id)); }
     v.push(Op::SetKbd(Some(4))); v.push(Op::SetKbd(None)); v.push(Op::SetDisp(Some(5)));
     for p in [0xFE10u16, 0xFE00, 0xFFF0, 0x3000] { v.push(Op::Mmap(p, REG_SSP)); }
@@ -104,7 +104,7 @@ fn alphabet() -> Vec<Op> {
     for p in [0xFE10u16, 0xFFFC, 0xFFF0] { v.push(Op::Munmap(p)); }
     v
 }
-const PROBE_PORTS: [u16; 7] = [0xFE00, 0xFE06, 0xFE10, 0xFE11, 0xFFFC, 0xFFF0, 0x3000];
+const PROBE_PORTS: [u16; 8] = [0xFE00, 0xFE06, 0xFE10, 0xFE11, 0xFFFC, 0xFFF0, 0xFFFF, 0x3000];
 
 fn run_history(ctx: &mut Ctx, ops: &[Op], probe: bool) -> bool {
     let mut sys = new_sys(); let mut m = Model::new();
@@ -146,7 +146,7 @@ fn run(ctx: &mut Ctx) {
     ctx.cases(1, k, |ctx, rng, _| {
         let len = 1 + rng.usize(60);
         let mut ops = vec![];
-        let port = |rng: &mut Rng| -> u16 { match rng.below(8) { 0 => 0x3000 + rng.below(16) as u16, 1 => 0xFDFF, _ => 0xFE00 + rng.below(0x40) as u16 * if rng.bool() { 1 } else { 8 } } };
+        let port = |rng: &mut Rng| -> u16 { match rng.below(9) { 0 => 0x3000 + rng.below(16) as u16, 1 => 0xFDFF, 2 => *rng.pick(&[0xFFFFu16, 0xFFFE, 0xFFFD, 0xFE00, 0xFFFA]), _ => 0xFE00 + rng.below(0x40) as u16 * if rng.bool() { 1 } else { 8 } } };
         let mut next_id = 3u16;
         for _ in 0..len {
             let op = match rng.below(12) {
